@@ -145,9 +145,17 @@ pub fn critical_times() -> Vec<i64> {
         pools::hms(23, 59, 29, 999_999),
         pools::hms(23, 59, 30, 0),
         pools::hms(23, 59, 59, 999_999),
+        // calendar constants of the domain read as a microsecond count, from midnight and back
+        // from the next midnight (a day number or Julian day used where microseconds are meant)
+        2_440_588,
+        US_PER_DAY - 2_440_588,
+        719_163,
+        US_PER_DAY - 719_163,
     ]
     .iter()
     .map(|x| *x as i64)
+    .collect::<std::collections::BTreeSet<i64>>() // ascending: C11's monotonicity walk relies on it
+    .into_iter()
     .collect()
 }
 
